@@ -107,7 +107,8 @@ def _listener_reinit(h, case):
             prev(entry)
         # only 'initialising while the run thread is active' is specified: STARTING, STARTED, or STOPPING (the
         # state in which STOP_EVENT is fired, before the worker publishes STOPPED)
-        if len(model.reinit_log) < 3 and sim.run_state.name in ("STARTING", "STARTED", "STOPPING"):
+        # (the other notifications are only fired by a starting / running simulator)
+        if len(model.reinit_log) < 3 and (name != "STOP" or sim.run_state.name in ("STARTING", "STARTED", "STOPPING")):
             before = sim.eventlist().size()
             try:
                 sim.initialize(model, sim.replication)
